@@ -423,6 +423,34 @@ class Universe:
             for _, t, _ in self.model_fields(c):
                 yield from self.cwalk(t)
 
+    def cpaired(self, s, d, params=None):
+        """Canonical counterpart of ``paired_positions``: (s', d') pairs a coercer may be requested for."""
+        yield s, d
+        none = ("sc", "None")
+        if s[0] == "m" and d[0] == "m":
+            sf = {n: t for n, t, _ in self.model_fields(s)}
+            for name, dtype, _ in self.model_fields(d):
+                if params and name in params:
+                    yield from self.cpaired(params[name], dtype)
+                elif name in sf:
+                    yield from self.cpaired(sf[name], dtype)
+        elif s[0] == "g" and d[0] == "g":
+            if ORIGINS[s[1]][3] == ORIGINS[d[1]][3] and ORIGINS[s[1]][3] in ("iter", "dict"):
+                for x, y in zip(s[2], d[2]):
+                    yield from self.cpaired(x, y)
+        elif s[0] == "u" and d[0] == "u" and none in s[1] and none in d[1]:
+            for x in s[1]:
+                for y in d[1]:
+                    if x != none and y != none:
+                        yield from self.cpaired(x, y)
+
+    def several_member_optionals_meet(self, s, d, params=None) -> bool:
+        """Both sides of some paired position are unions containing None and one of them has further members
+        besides a single one: the code path of the open finding C14-optional-first-member-only."""
+        none = ("sc", "None")
+        return any(a[0] == "u" and b[0] == "u" and none in a[1] and none in b[1] and (len(a[1]) > 2 or len(b[1]) > 2)
+                   for a, b in self.cpaired(s, d, params))
+
     def has_several_member_optional(self, *canons) -> bool:
         return any(n[0] == "u" and ("sc", "None") in n[1] and len(n[1]) > 2 for c in canons for n in self.cwalk(c))
 
@@ -999,17 +1027,54 @@ def has_bare_abc(case) -> bool:
     return any(n[0] == "bare" and n[1] in ABC_ORIGINS for s in specs for n in walk(s))
 
 
+def _strip_ann(spec):
+    while spec[0] == "ann":
+        spec = spec[1]
+    return spec
+
+
+def paired_positions(s, d, params=None):
+    """(source spec, destination spec) pairs for which a coercer can be requested while the converter S -> D is
+    built: the pair itself, same-named model fields (extra parameters first at the top level), elements of
+    iterables, keys/values of dicts, the non-None members of two optional unions.  Raw specs (spellings kept)."""
+    s, d = _strip_ann(s), _strip_ann(d)
+    yield s, d
+    if s[0] == "m" and d[0] == "m":
+        def fields(node):
+            tv = dict(zip(node[4], node[5] if node[5] is not None else [ANY] * len(node[4])))
+            return {f[0]: _subst(f[1], tv) if node[4] else f[1] for f in node[3]}
+        sf, df = fields(s), fields(d)
+        for name, dtype in df.items():
+            if params and name in params:
+                yield from paired_positions(params[name], dtype)
+            elif name in sf:
+                yield from paired_positions(sf[name], dtype)
+    elif s[0] in ("g", "bare") and d[0] in ("g", "bare"):
+        sa = s[2] if s[0] == "g" else [ANY] * (ORIGINS[s[1]][2] or 0)
+        da = d[2] if d[0] == "g" else [ANY] * (ORIGINS[d[1]][2] or 0)
+        fam_s, fam_d = ORIGINS[s[1]][3], ORIGINS[d[1]][3]
+        if fam_s == fam_d and fam_s in ("iter", "dict"):
+            for x, y in zip(sa, da):
+                yield from paired_positions(x, y)
+    elif s[0] == "u" and d[0] == "u" and NONE in s[1] and NONE in d[1]:
+        for x in s[1]:
+            for y in d[1]:
+                if x != NONE and y != NONE:
+                    yield from paired_positions(x, y)
+
+
 def nameless_hint_vs_model(case) -> bool:
-    """A PEP 604 union (``X | Y`` has no ``__name__``) or a top-level ``None`` somewhere, and a model it can be
-    paired with (over-approximation of the trigger of the open finding C14-model-hint-without-name)."""
-    src, dst = case["src"], case["dst"]
-    top = not (src[0] == "m" and dst[0] == "m")
-    specs = [src, dst, *[p[1] for p in case.get("params", [])]]
-    nameless = any(n[0] == "u" and n[2] == "pipe" for s in specs for n in walk(s)) or (top and NONE in (src, dst))
-    if not nameless:
-        return False
-    models = sum(1 for s in specs for n in walk(s) if n[0] == "m")
-    return models > (0 if top else 2)
+    """Trigger of the open finding C14-model-hint-without-name, decided on the specs: somewhere a model is paired
+    with a hint object that has no ``__name__`` -- a PEP 604 union (``X | Y``) or a top-level ``None``."""
+    params = {n: t for n, t in case.get("params", [])}
+    first = True
+    for s, d in paired_positions(case["src"], case["dst"], params):
+        for a, b in ((s, d), (d, s)):
+            if a[0] == "m" and b[0] != "m":
+                if (b[0] == "u" and b[2] == "pipe") or (first and b == NONE):
+                    return True
+        first = False
+    return False
 
 
 def norm_site(site: str) -> str:
@@ -1643,7 +1708,7 @@ def known_classes_of(case) -> list:
     uni = Universe(case.get("policy", ["forbid"]))
     cs, cd = uni.canon(case["src"]), uni.canon(case["dst"])
     cparams = {n: uni.canon(t) for n, t in case.get("params", [])}
-    if uni.has_several_member_optional(cs, cd, *cparams.values()):
+    if uni.several_member_optionals_meet(cs, cd, cparams):
         out.append("several_member_optional")
     verdict = uni.model_rel(cs, cd, cparams) if cparams and cs != cd else uni.rel(cs, cd)
     if verdict == NO and any(b[0] == "union_member_matched_by_origin_only" for b in uni.blames(cs, cd, cparams)):
